@@ -140,12 +140,12 @@ Proof.
 Qed.
 
 Lemma fshort_van_sweep :
-  forallb (fun n => beq_bytes (van_enc_fshort n) (be_enc 2 (Z.to_N n)) && (Z.land n 32768 =? 0)) (zrange (Z.to_nat 32768)) = true.
+  forallb (fun n => beq_bytes (van_enc_fshort n) (be_enc 2 (Z.to_N n)) && (Z.land n 32768 =? 0)) (zrange 256) = true.
 Proof. vm_compute. reflexivity. Qed.
-Lemma fshort_van n : 0 <= n < 32768 -> van_enc_fshort n = be_enc 2 (Z.to_N n) /\ Z.land n 32768 = 0.
+Lemma fshort_van n : 0 <= n < 256 -> van_enc_fshort n = be_enc 2 (Z.to_N n) /\ Z.land n 32768 = 0.
 Proof.
   intro H. pose proof fshort_van_sweep as S. rewrite forallb_forall in S.
-  specialize (S n (zrange_in (Z.to_nat 32768) n ltac:(lia))). apply andb_true_iff in S as [S1 S2].
+  specialize (S n (zrange_in 256 n ltac:(lia))). apply andb_true_iff in S as [S1 S2].
   split; [apply beq_bytes_eq; exact S1 | apply Z.eqb_eq; exact S2].
 Qed.
 
@@ -404,7 +404,7 @@ Proof.
       rewrite Z2N.id by lia. unfold lenZ. rewrite Nat2Z.id, take_n_app. reflexivity.
   - (* PBytes17V *)
     apply andb_true_iff in D as [D1 D2].
-    assert (Hl : 0 <= lenZ s < 32768) by (unfold lenZ in *; lia).
+    assert (Hl : 0 <= lenZ s < 256) by (unfold lenZ in *; lia).
     destruct (fshort_van (lenZ s) Hl) as [E1 E2].
     exists (van_enc_fshort (lenZ s) ++ s). split.
     + cbn [lp_enc]. replace (forge_max <? lenZ s) with false by (symmetry; apply Z.ltb_ge; unfold forge_max; lia). reflexivity.
